@@ -114,4 +114,48 @@ example : exImpl.map (fun r => r.2.2.2.2.2.2.2) = some ("file.swc", 0) := by dec
 example : to_subtree_impl (A := String) (rangeI 5) exPids [1, 3, 2, 3, 3] ["a", "b", "c", "d", "e"] "file.swc" (0 : Nat) ([0, -2, 2, 3, 4], exPids) [] = none := by
   decide +kernel
 
+/-! ## `to_subtree`, `get_subtree_impl` / `get_subtree`, `to_sub_tree` on ALL columns (they call the translated `to_subtree_impl`) -/
+
+/-- the translated `to_subtree` over all columns equals the model `toSubtree` + the gather of every column; inputs unchanged -/
+theorem generated_toSubtreeTree_eq_model {A Src Nm : Type} [Inhabited A] [Inhabited Src] [Inhabited Nm]
+    (pids types : List Int) (xs : List A) (src : Src) (nm : Nm) (r : Rose) (h : IsTree r pids) (rm : List Int)
+    (hrm : ∀ i ∈ rm, 0 ≤ i ∧ i.toNat < pids.length) (h3 : types.length = pids.length) (h4 : xs.length = pids.length) (out0 : List Int) (F : Nat) :
+    to_subtree_tree (2 * r.size + F + 1) (rangeI pids.length) pids types xs src nm rm out0 =
+      (toSubtree pids rm).map fun t =>
+        (t.mapping, rangeI pids.length, pids, types, xs,
+          ((t.mapping.length : Int), (Py.range (t.mapping.length : Int), t.newPid, takeRows types t.mapping, takeRows xs t.mapping), src, nm)) :=
+  toSubtreeTree_refines pids types xs src nm r h rm hrm h3 h4 out0 F
+
+/-- the translated `get_subtree` over all columns equals the model `getSubtree` + the gather of every column; inputs unchanged -/
+theorem generated_getSubtreeTree_eq_model {A Src Nm : Type} [Inhabited A] [Inhabited Src] [Inhabited Nm]
+    (pids types : List Int) (xs : List A) (src : Src) (nm : Nm) (s : Rose)
+    (h : Represents s (rangeI pids.length) pids) (hin : ∀ i ∈ s.ids, 0 ≤ i ∧ i.toNat < pids.length)
+    (h3 : types.length = pids.length) (h4 : xs.length = pids.length) (out0 : List Int) (F : Nat) :
+    get_subtree_tree (2 * s.size + F + 1) (rangeI pids.length) pids types xs src nm s.id out0 =
+      (getSubtree pids s.id).map fun r =>
+        (r.mapping, rangeI pids.length, pids, types, xs,
+          ((r.mapping.length : Int), (Py.range (r.mapping.length : Int), r.newPid, takeRows types r.mapping, takeRows xs r.mapping), src, nm)) :=
+  getSubtreeTree_refines pids types xs src nm s h hin h3 h4 out0 F
+
+/-- the translated deprecated wrapper `to_sub_tree` equals the model `toSubtree` + the gather + the old→new dictionary -/
+theorem generated_toSubTree_eq_model {A Src Nm : Type} [Inhabited A] [Inhabited Src] [Inhabited Nm]
+    (pids types : List Int) (xs : List A) (src : Src) (nm : Nm) (r : Rose) (h : IsTree r pids) (rm l : List Int)
+    (hrm : ∀ i ∈ rm, 0 ≤ i ∧ i.toNat < pids.length) (hl : RefineCut.markAll (rangeI pids.length) rm = some l)
+    (h3 : types.length = pids.length) (h4 : xs.length = pids.length) (F : Nat) :
+    to_sub_tree (2 * r.size + F + 1) (rangeI pids.length) pids types xs src nm (l, pids) =
+      (toSubtree pids rm).map fun t =>
+        (rangeI pids.length, pids, types, xs,
+          (((t.mapping.length : Int), (Py.range (t.mapping.length : Int), t.newPid, takeRows types t.mapping, takeRows xs t.mapping), src, nm),
+           idMapOf t.mapping)) :=
+  toSubTree_refines pids types xs src nm r h rm l hrm hl h3 h4 F
+
+-- non-vacuity (exPids = [-1, 0, 1, 1, 0]): remove node 1 (and its descendants 2, 3); subtree at node 1; the deprecated wrapper on marks [0,-2,2,3,4]
+def exCols : List String := ["a", "b", "c", "d", "e"]
+example : (to_subtree_tree (A := String) 11 (rangeI 5) exPids [1, 3, 2, 3, 3] exCols "f" (0 : Nat) [1] [9]).map (fun r => (r.1, r.2.2.2.2.2.2.1))
+    = some ([0, 4], ([0, 1], [-1, 0], [1, 3], ["a", "e"])) := by decide +kernel
+example : (get_subtree_tree (A := String) 11 (rangeI 5) exPids [1, 3, 2, 3, 3] exCols "f" (0 : Nat) 1 [9]).map (fun r => (r.1, r.2.2.2.2.2.2.1))
+    = some ([1, 3, 2], ([0, 1, 2], [-1, 0, 0], [3, 3, 2], ["b", "d", "c"])) := by decide +kernel
+example : (to_sub_tree (A := String) 11 (rangeI 5) exPids [1, 3, 2, 3, 3] exCols "f" (0 : Nat) ([0, -2, 2, 3, 4], exPids)).map (fun r => (r.2.2.2.2.1.2.1, r.2.2.2.2.2))
+    = some (([0, 1], [-1, 0], [1, 3], ["a", "e"]), [(0, 0), (4, 1)]) := by decide +kernel
+
 end C06
